@@ -83,20 +83,23 @@ Definition grow_size (c : chan) (cur : nat) : option nat :=
   if maxb c <=? cur then None
   else Some (Nat.min (Nat.max (Nat.min (2 * cur) (maxb c)) (cur + 1)) (maxb c)).
 
+(** first half of one [readable] iteration: grow the front buffer when it has
+    no free space, or give up ([None]) when it is at the ceiling *)
+Definition ensure_space (c : chan) : option chan :=
+  if avail_space (front c) =? 0 then
+    match grow_size c (cap (front c)) with
+    | Some n => Some (set_front c (grow (front c) n))
+    | None => None
+    end
+  else Some c.
+
 (** [readable]: the loop reads until WouldBlock / EOF / cannot grow. *)
 Fixpoint readable_loop (fuel : nat) (c : chan) (s : sock) (count : nat)
   : chan * sock * res nat :=
   match fuel with
   | O => (c, s, Ok count)
   | S fuel' =>
-    let grown :=
-      if avail_space (front c) =? 0 then
-        match grow_size c (cap (front c)) with
-        | Some n => Some (set_front c (grow (front c) n))
-        | None => None
-        end
-      else Some c in
-    match grown with
+    match ensure_space c with
     | None => (set_int_r c false, s, Ok count)
     | Some c1 =>
       match inq s with
@@ -130,20 +133,23 @@ Definition try_shrink_back (c : chan) : chan :=
   else if avail_data (back c) =? 0
        then set_back c (shrink (back c) (initb c)) else c.
 
+(** tail of [try_read_delimited_message] when no complete frame is pending:
+    reclaim the consumed prefix, then grow, or report BufferFull at the ceiling *)
+Definition read_fallthrough (c : chan) : chan * res (option (list N)) :=
+  let c1 := if avail_space (front c) =? 0 then set_front c (shift (front c)) else c in
+  if avail_space (front c1) =? 0 then
+    if maxb c1 <=? cap (front c1) then (c1, Err EBufferFull)
+    else
+      let n := match grow_size c1 (cap (front c1)) with Some n => n | None => maxb c1 end in
+      (set_front c1 (grow (front c1) n), Ok None)
+  else (c1, Ok None).
+
 Section WithDecoder.
   Variable decodable : list N -> bool.
 
   (** [try_read_delimited_message] *)
   Definition try_read (c : chan) : chan * res (option (list N)) :=
     let d := dat (front c) in
-    let fallthrough :=
-      let c1 := if avail_space (front c) =? 0 then set_front c (shift (front c)) else c in
-      if avail_space (front c1) =? 0 then
-        if maxb c1 <=? cap (front c1) then (c1, Err EBufferFull)
-        else
-          let n := match grow_size c1 (cap (front c1)) with Some n => n | None => maxb c1 end in
-          (set_front c1 (grow (front c1) n), Ok None)
-      else (c1, Ok None) in
     if delimiter_size <=? length d then
       let mlen := of_le_bytes (firstn delimiter_size d) in
       if (N.of_nat (maxb c) <? mlen)%N then (c, Err ETooLarge)
@@ -154,8 +160,8 @@ Section WithDecoder.
         let payload := firstn (ml - delimiter_size) (skipn delimiter_size d) in
         let c' := set_front c (fst (consume (front c) ml)) in
         if decodable payload then (c', Ok (Some payload)) else (set_int_r c' true, Err EInvalidProto)
-      else fallthrough
-    else fallthrough.
+      else read_fallthrough c
+    else read_fallthrough c.
 
   (** [read_message] on a non-blocking channel *)
   Definition read_message (c : chan) : chan * res (list N) :=
@@ -263,3 +269,29 @@ Fixpoint writable_loop (fuel : nat) (c : chan) (s : sock) (count : nat)
 Definition writable (c : chan) (s : sock) : chan * sock * res nat :=
   if negb (int_w c && rdy_w c) then (c, s, Err EConnection)
   else writable_loop (S (S (length (wsched s)))) c s 0.
+
+(** API-level operations: everything an owner or the peer/kernel can do to a
+    channel, in any order.  Used to state invariants over every history. *)
+Inductive apiop :=
+| AArrive (bs : list N)        (* the peer's bytes reach the socket *)
+| APeerClose                   (* the peer shuts its write side *)
+| ASched (l : list nat)        (* the kernel's next write capacities *)
+| AEvent (r w : bool)          (* [handle_events] *)
+| AReadable | ARead | AWrite (p : list N) | AWritable
+| ATurn (fuel : nat).          (* the owner's loop *)
+
+Definition api_step (decodable : list N -> bool) (st : chan * sock) (o : apiop) : chan * sock :=
+  let '(c, s) := st in
+  match o with
+  | AArrive bs => (c, mksock (inq s ++ bs) (ineof s) (wsched s) (outq s))
+  | APeerClose => (c, mksock (inq s) true (wsched s) (outq s))
+  | ASched l => (c, mksock (inq s) (ineof s) l (outq s))
+  | AEvent r w => (handle_events c r w, s)
+  | AReadable => let '(c', s', _) := readable c s in (c', s')
+  | ARead => (fst (read_message decodable c), s)
+  | AWrite p => (fst (write_message c p), s)
+  | AWritable => let '(c', s', _) := writable c s in (c', s')
+  | ATurn fuel => let '(c', s', _) := owner_turn decodable fuel c s in (c', s')
+  end.
+
+Definition empty_sock : sock := mksock [] false [] [].
